@@ -10,7 +10,7 @@ from __future__ import annotations
 import numpy as np
 from scipy.spatial.transform import Rotation as R
 
-from vfw import objs
+from vfw import objs, tol
 from vfw.oracles import geometry as G
 from vfw.util import quiet, exc_info
 
@@ -74,7 +74,10 @@ def gen_case(rng):
             pts.append(np.array(s["position"][0]) + d)
             kinds.append("generic")
     return {"source": s, "observers": np.array(pts).tolist(), "kinds": kinds, "exact": exact,
-            "via_sensor": bool(rng.random() < 0.25)}
+            "via_sensor": bool(rng.random() < 0.25),
+            # evaluate the source as the LATER entry of a two-source call whose first entry is a twin with the same
+            # geometry and pose but another excitation (vectorised group of equal bodies)
+            "twin_excitation": (rng.normal(size=3) + 0.3).tolist() if rng.random() < 0.35 else None}
 
 
 def check_case(ctx, case):
@@ -83,6 +86,18 @@ def check_case(ctx, case):
     s = case["source"]
     mu0 = magpy.mu_0
     src = objs.build(s)
+    if case.get("twin_excitation") is not None:
+        tw = dict(s)
+        e = np.array(case["twin_excitation"], float)
+        for k in ("polarization", "moment"):
+            if k in tw:
+                tw[k] = e.tolist()
+        if "current" in tw:
+            tw["current"] = float(e[0])
+        src_call, pick = [objs.build(tw), src], 1
+        ctx.count("twin_calls")
+    else:
+        src_call, pick = src, 0
     P = np.array(case["observers"], float)
     out = {}
     try:
@@ -92,12 +107,12 @@ def check_case(ctx, case):
                 sens = magpy.Sensor(pixel=P, orientation=R.from_quat(sq[0]))
                 # sensor at origin: pixels rotated -> evaluate at R.P, expressed in sensor frame
                 for F in "BHJM":
-                    out[F] = np.asarray(getattr(magpy, "get" + F)(src, sens, squeeze=False))[0, 0, 0]
+                    out[F] = np.asarray(getattr(magpy, "get" + F)(src_call, sens, squeeze=False))[pick, 0, 0]
                 Pg = R.from_quat(sq[0]).apply(P)
                 frame = R.from_quat(sq[0])
             else:
                 for F in "BHJM":
-                    out[F] = np.asarray(getattr(magpy, "get" + F)(src, P, squeeze=False))[0, 0, 0]
+                    out[F] = np.asarray(getattr(magpy, "get" + F)(src_call, P, squeeze=False))[pick, 0, 0]
                 Pg = P
                 frame = None
     except Exception as e:
@@ -160,7 +175,8 @@ def check_case(ctx, case):
                 with quiet():
                     Bf = np.asarray(magpy.getB(src, P, squeeze=False, in_out=mode))[0, 0, 0].reshape(-1, 3)
                 ctx.count("inout_forced")
-                if np.max(np.abs(Bf - B)) > 1e-12 * (np.max(np.abs(B)) + 1e-300):
+                # same formula through another batch composition: rounding level incl. the class floor
+                if not tol.close_a(Bf, B, tol.floor_abs(s, "B"), rtol=1e-9)[0]:
                     ctx.violation({"cls": s["cls"], "kind": "in_out forced != auto", "mode": mode}, case,
                                   {"forced": Bf[0], "auto": B[0]})
 
